@@ -85,7 +85,7 @@ def run(res, a):
         rep = json.load(open(a.replay))
         if rep["case"].startswith("sk "):
             stalled(res, a, [rep["case"]])
-        elif rep["case"].split(" ")[0] in ("cwsw", "cwrace", "cwdl"):
+        elif rep["case"].split(" ")[0] in ("cwsw", "cwrace", "cwdl", "cwclose"):
             extra(res, [{"id": "replay", "line": rep["case"], "kind": rep["case"].split(" ")[0]}])
         else:
             core.run_correspondence(res, FAMILY, [{"id": "replay", "line": rep["case"], "kind": "replay"}], mod)
@@ -99,6 +99,9 @@ def run(res, a):
         cases.append({"id": "race%d" % i, "kind": "cwrace", "line": "cwrace %s 4 %d %d" % (rb(rng, 32), 300 if a.tier == "quick" else 3000, 2000 if a.tier == "quick" else 20000)})
     for i in range(3 if a.tier == "quick" else 12):
         cases.append({"id": "dl%d" % i, "kind": "cwdl", "line": "cwdl %s %s %s" % (rb(rng, 32), "aa" + rb(rng, rng.choice([4, 1100])), "bb" + rb(rng, rng.choice([9, 2100])))})
+    # writers and a Close of the connection from another goroutine: the first write is in flight at the socket, the others wait
+    for i in range(4 if a.tier == "quick" else 24):
+        cases.append({"id": "cl%d" % i, "kind": "cwclose", "line": "cwclose %s %s" % (rb(rng, 32), " ".join("c%d" % j + rb(rng, rng.choice([5, 40, 1500])) for j in range(rng.randrange(2, 5))))})
     extra(res, cases)
     stalled(res, a)
 
@@ -148,6 +151,10 @@ def extra(res, cases):
                     "in plaintext" if m.group(2) == "plain" else ("under the old session's key and counter" if m.group(2).startswith("old") else "undecryptable"))
             elif not (m.group(1) == ("old@0" if had_old else "plain")):
                 why = "the write that was in flight before the switch was sent as %s" % m.group(1)
+        elif c["kind"] == "cwclose":
+            if not o.startswith("ok "):
+                why = ("writers waiting for the connection's write lock while the connection is closed from another goroutine: the peer received bytes that are "
+                       "not frames of the session before the stream ended (" + o[:60] + ")")
         elif c["kind"] == "cwdl":
             if o != "ok":
                 why = "a write made while the server had a READ deadline in the past on the connection (as it has at the end of every request) did not go out like any other: " + o[:80]
